@@ -177,7 +177,7 @@ def explore(ctx, modname, clsname, args=(), max_depth=3, max_states=None, conf=N
                 break
             stats['depth_completed'] = depth
             frontier = nxt
-            if ctx.violations:
+            if ctx.new_violations():
                 ctx.cap('stopped after depth %d: violations found (shortest counterexamples '
                         'first)' % depth)
                 break
